@@ -3,7 +3,7 @@ import negsim
 
 
 def run(chk):
-    negsim.run_check(chk, "C02", [("policy", negsim.policy_scenarios)], 500)
+    negsim.run_check(chk, "C02", [("policy", negsim.policy_scenarios), ("rawtls", negsim.rawtls_scenarios)], 500)
 
 
 def replay(path):
